@@ -33,8 +33,8 @@ def ctx_constant(dump):
 
 
 def theorem_applies(dump):
-    """Hypotheses of C19_memo_safe_partial: in the class, and (parser skipws on, or no Comment rule)."""
-    return ctx_constant(dump) and (dump["skipws"] or dump["comments"] is None)
+    """Hypothesis of C19_memo_safe: the grammar is in the class (any parser configuration)."""
+    return ctx_constant(dump)
 
 
 def _reach(dump, start):
@@ -184,7 +184,7 @@ def run(chk):
         if coq_cls.get(ci) != ("T" if cc else "F") or (cc and cdep):
             disagreements.append({"case": {"grammar": case["grammar"]}, "impl": "classifier ctx_constant=%s context_dependent=%s" % (cc, cdep),
                                   "model": "Coq ctx_constant = %s" % coq_cls.get(ci)})
-        chk.stat("grammars: %s" % (("in the proved class" if theorem_applies(d) else "in the class, Comment rule with skipws=False (unproved)") if cc else (
+        chk.stat("grammars: %s" % ("in the proved class" if cc else (
             "context-dependent" if cdep else ("memoizable comment model" if memoizable_comment_model(d) else "other"))))
         for ii, (text, run_) in enumerate(zip(case["inputs"], res["runs"])):
             if run_.get("timeout") or run_.get("unsupported"):
@@ -207,7 +207,7 @@ def run(chk):
                 if mo != mn:
                     chk.stat("model: memo changes outcome")
                     if theorem_applies(d) and not mo.startswith("A:"):
-                        # an instance of C19_memo_safe_partial evaluated on the model: cannot differ
+                        # an instance of C19_memo_safe evaluated on the model: cannot differ
                         disagreements.append({"case": cinfo, "impl": [t_off, t_on], "model": [mo, mn, "theorem instance violated in the model"]})
             # glue: the textX-level outcome must be the Arpeggio-level one (acceptance and error position)
             for tt, mm in ((t_off, m_off), (t_on, m_on)):
